@@ -1,5 +1,5 @@
 SPECIFICATION Spec
-CONSTANT MaxLen = 6
+CONSTANT MaxLen = 5
 CONSTANT Instances = {"mem"}
 INVARIANT DepsExact
 INVARIANT ConflictsOrdered
